@@ -863,47 +863,62 @@ Section Main.
         end
     end.
 
-  Lemma all_some_ok args : 
-    Forall (fun a => forall t, mt a = Some t -> visit ctxmap raw_dates a = print3 t /\ good t) args ->
+  Definition vis_ok (a : e1) : Prop :=
+    forall t, mt a = Some t -> visit ctxmap raw_dates a = print3 t /\ good t /\ visit_errs ctxmap raw_dates a = false.
+
+  Lemma all_some_ok args :
+    Forall vis_ok args ->
     forall ts, all_some (map mt args) = Some ts ->
-    map (visit ctxmap raw_dates) args = map print3 ts /\ Forall good ts.
+    map (visit ctxmap raw_dates) args = map print3 ts /\ Forall good ts
+    /\ existsb (visit_errs ctxmap raw_dates) args = false.
   Proof.
     induction 1 as [|a r Ha Hr IH]; intros ts H; cbn [map all_some] in H.
-    - inversion H; subst. split; [reflexivity|constructor].
+    - inversion H; subst. split; [reflexivity|split; [constructor|reflexivity]].
     - destruct (mt a) as [ta|] eqn:Ea; [|discriminate].
       destruct (all_some (map mt r)) as [xs|] eqn:Er; [|discriminate].
-      inversion H; subst ts. destruct (Ha ta eq_refl) as [P G]. destruct (IH xs eq_refl) as [P' G'].
-      split; [cbn [map]; rewrite P, P'; reflexivity | constructor; assumption].
+      inversion H; subst ts. destruct (Ha ta Ea) as (P & G & V). destruct (IH xs eq_refl) as (P' & G' & V').
+      split; [cbn [map]; rewrite P, P'; reflexivity | split; [constructor; assumption|]].
+      cbn [existsb]. rewrite V, V'. reflexivity.
   Qed.
 
-  Lemma visit_mt : forall e t, mt e = Some t -> visit ctxmap raw_dates e = print3 t /\ good t.
+  Lemma visit_mt_strong : forall e, vis_ok e.
   Proof.
-    induction e using e1_ind'; intros t Hmt; cbn [mt visit] in *.
+    induction e using e1_ind'; intros t Hmt; cbn [mt visit visit_errs] in *.
     - (* string literal *)
       destruct (text_ok (migrate_string_literal raw)) eqn:E; [|discriminate]. inversion Hmt; subst.
-      split; [reflexivity | split; [reflexivity | exact E]].
+      split; [reflexivity | split; [split; [reflexivity | exact E] | reflexivity]].
     - destruct (num_ok raw) eqn:E; [|discriminate]. inversion Hmt; subst.
-      split; [reflexivity | split; [reflexivity | exact E]].
-    - inversion Hmt; subst. split; [reflexivity | split; reflexivity].
-    - inversion Hmt; subst. split; [reflexivity | split; reflexivity].
-    - apply canon_spec in Hmt. exact Hmt.
-    - destruct (mt e) as [te|]; [|discriminate]. cbn [option_map] in Hmt. inversion Hmt; subst.
-      destruct (IHe te eq_refl) as [P [W L]]. split; [cbn [print3]; rewrite P; reflexivity | split; assumption].
-    - destruct (mt e) as [te|]; [|discriminate]. cbn [option_map] in Hmt. inversion Hmt; subst.
-      destruct (IHe te eq_refl) as [P G]. change prec_negation with 7%nat. rewrite P, as_operand_print by assumption.
-      split; [reflexivity|]. apply good_neg; [apply good_wrap; assumption | apply wrap_lvl; lia].
-    - destruct (mt e1) as [ta|]; [|discriminate]. destruct (mt e2) as [tb|]; [|discriminate].
-      destruct (IHe1 ta eq_refl) as [Pa Ga]. destruct (IHe2 tb eq_refl) as [Pb Gb].
-      inversion Hmt; subst t. rewrite Pa, Pb.
+      split; [reflexivity | split; [split; [reflexivity | exact E] | reflexivity]].
+    - inversion Hmt; subst. split; [reflexivity | split; [split; reflexivity | reflexivity]].
+    - inversion Hmt; subst. split; [reflexivity | split; [split; reflexivity | reflexivity]].
+    - apply canon_spec in Hmt. destruct Hmt as [E G]. split; [exact E | split; [exact G | reflexivity]].
+    - destruct (mt e) as [te|] eqn:Em; [|discriminate]. cbn [option_map] in Hmt. inversion Hmt; subst.
+      destruct (IHe te Em) as (P & [W L] & V).
+      split; [cbn [print3]; rewrite P; reflexivity | split; [split; assumption | exact V]].
+    - destruct (mt e) as [te|] eqn:Em; [|discriminate]. cbn [option_map] in Hmt. inversion Hmt; subst.
+      destruct (IHe te Em) as (P & G & V). change prec_negation with 7%nat. rewrite P, as_operand_print by assumption.
+      split; [reflexivity|]. split; [|exact V]. apply good_neg; [apply good_wrap; assumption | apply wrap_lvl; lia].
+    - destruct (mt e1) as [ta|] eqn:Em1; [|discriminate]. destruct (mt e2) as [tb|] eqn:Em2; [|discriminate].
+      destruct (IHe1 ta Em1) as (Pa & Ga & Va). destruct (IHe2 tb Em2) as (Pb & Gb & Vb).
+      inversion Hmt; subst t. rewrite Pa, Pb, Va, Vb.
       assert (Gen : forall o', as_operand (print3 ta) (go_prec_of_op o') ++ 32 :: op_text o' ++ 32 :: as_operand (print3 tb) (S (go_prec_of_op o'))
                      = print3 (X3Bin o' (wrap ta (prec o')) (wrap tb (S (prec o'))))
                     /\ good (X3Bin o' (wrap ta (prec o')) (wrap tb (S (prec o'))))).
       { intros o'. rewrite go_prec_of_op_is_prec, !as_operand_print by assumption. split; [reflexivity|].
         apply good_bin; try (apply good_wrap; assumption); apply wrap_lvl; pose proof (prec_le_7 o'); lia. }
-      destruct o; try apply Gen; apply additive_ok; assumption.
+      assert (Two : forall A B : Prop, A /\ B -> A /\ B /\ false || false = false) by (intros A B [a b]; repeat split; assumption).
+      destruct o; apply Two; try apply Gen; apply additive_ok; assumption.
     - destruct (all_some (map mt args)) as [ts|] eqn:Ea; [|discriminate].
-      destruct (all_some_ok args H ts Ea) as [P G]. rewrite P. apply call_ok; assumption.
+      destruct (all_some_ok args H ts Ea) as (P & G & V). rewrite P, V.
+      destruct (call_ok (lower f) ts t G Hmt) as [Pc Gc]. rewrite Pc.
+      split; [reflexivity | split; [exact Gc | reflexivity]].
   Qed.
+
+  Lemma visit_mt : forall e t, mt e = Some t -> visit ctxmap raw_dates e = print3 t /\ good t.
+  Proof. intros e t H. destruct (visit_mt_strong e t H) as (P & G & _). split; assumption. Qed.
+
+  Lemma mt_no_errs : forall e t, mt e = Some t -> visit_errs ctxmap raw_dates e = false.
+  Proof. intros e t H. destruct (visit_mt_strong e t H) as (_ & _ & V). exact V. Qed.
 
   (* the migrated text re-parses to the intended tree *)
   Theorem grouping : forall e t, mt e = Some t -> parse3 (visit ctxmap raw_dates e) = Some t.
@@ -1100,7 +1115,7 @@ Section Template.
       parse3 (print3 t) = Some t.
   Proof.
     intros s e t following Hd Hu Hne Hp Hm. unfold mseg, migrate_seg, migrate_expression.
-    rewrite Hne, Hp, Hd, Hu. destruct (visit_mt ctxmap raw_dates e t Hm) as [Pv [W L]].
+    rewrite Hne, Hp, Hd, Hu, (mt_no_errs ctxmap raw_dates e t Hm). destruct (visit_mt ctxmap raw_dates e t Hm) as [Pv [W L]].
     rewrite Pv. unfold wrap_raw.
     destruct (is_valid_identifier (print3 t)).
     - destruct (separate_from_cases (64 :: print3 t) following) as [E|E]; fold sep; rewrite E.
@@ -1234,7 +1249,7 @@ Definition legacy_spec : list (String.string * String.string) := [
   ("WORD_SLICE(a1, 2, 4, TRUE)", "word_slice(a1, 1, 3, "" \t"")");
   ("YEAR(a1)", "format_date(a1, ""YYYY"")");
   (* every admitted number of arguments of the per-parameter migrators and joins *)
-  ("FIELD(a1)", "field(a1)"); ("FIELD(a1, a2)", "field(a1, a2 - 1)"); ("WORD(a1)", "word(a1)");
+  ("FIELD(a1)", "field(a1)"); ("FIELD(a1, a2)", "field(a1, a2 - 1, "" "")"); ("WORD(a1)", "word(a1)");
   ("WORD_SLICE(a1)", "word_slice(a1)"); ("WORD_SLICE(a1, a2, a3, FALSE)", "word_slice(a1, a2 - 1, a3 - 1, NULL)");
   ("WORD_COUNT(a1, FALSE)", "word_count(a1, NULL)");
   ("SUM(a1)", "a1"); ("SUM(a1, a2)", "a1 + a2"); ("CONCATENATE(a1)", "a1"); ("CONCATENATE(a1, a2)", "a1 & a2");
@@ -1249,6 +1264,14 @@ Definition legacy_spec : list (String.string * String.string) := [
   ("a1 + TIMEVALUE(a2)", "replace_time(a1, time(a2))");
   ("NOW() - (a1 + 1)", "legacy_add(now(), -(legacy_add(a1, 1)))");
   ("1.5 + 2", "legacy_add(1.5, 2)"); ("ABS(a1) + 2", "abs(a1) + 2"); ("2 - ABS(a1) * 3", "2 - abs(a1) * 3"); ("a1 - ABS(a2) * 3", "legacy_add(a1, -(abs(a2) * 3))");
+  (* optional arguments: IF(test, value_if_true = 0, value_if_false = FALSE) *)
+  ("IF(a1)", "if(a1, 0, false)"); ("IF(a1, a2)", "if(a1, a2, false)");
+  (* DATEDIF units y, m, d are case-insensitive in legacy; M is months, m minutes in datetime_diff *)
+  ("DATEDIF(a1, a2, ""m"")", "datetime_diff(a1, a2, ""M"")"); ("DATEDIF(a1, a2, ""Y"")", "datetime_diff(a1, a2, ""Y"")");
+  ("DATEDIF(a1, a2, ""d"")", "datetime_diff(a1, a2, ""D"")");
+  (* by_spaces given as an expression is decided when the expression is evaluated *)
+  ("WORD(a1, a2, a3)", "word(a1, a2 - 1, if(a3, "" \t"", NULL))"); ("WORD_COUNT(a1, a2 = 1)", "word_count(a1, if(a2 = 1, "" \t"", NULL))");
+  ("DATE(a1, a2, a3) + 1", "format_date(datetime_add(date_from_parts(a1, a2, a3), 1, ""D""))");
   (* operators *)
   ("a1 <> a2", "a1 != a2"); ("a1 & a2 & a3", "(a1 & a2) & a3"); ("a1 * a2 / a3", "(a1 * a2) / a3");
   ("a1 ^ a2 ^ a3", "(a1 ^ a2) ^ a3"); ("-a1 ^ a2", "(-a1) ^ a2"); ("a1 + a2", "legacy_add(a1, a2)");
@@ -1287,6 +1310,8 @@ Definition entry_covered (e : text * cmig) : bool :=
   | Template f _ => has_call k (tmpl_arity f)
   | Join _ _ => has_call k 1 && has_call k 2 && has_call k 3
   | Params _ _ pms => forallb (has_call k) (seq 1 (length pms))
+  | DateDif => has_call k 3
+  | Optional required defaults _ => forallb (has_call k) (seq required (S (length defaults)))
   end.
 
 Lemma spec_covers_table : forallb entry_covered legacy_table = true.
@@ -1299,27 +1324,41 @@ Proof. vm_compute. reflexivity. Qed.
    migrators), calls of unknown functions whose name is one Excellent3 NAME, context references whose
    migration is a canonically printed expression *)
 
-Definition defaults_ok (e : text * cmig) : Prop :=
-  match snd e with
+Fixpoint cmig_defaults_ok (m : cmig) : Prop :=
+  match m with
   | Params _ defaults _ => Forall (fun d => canon d <> None) (tl defaults)
+  | Optional _ defaults inner => Forall (fun d => canon d <> None) defaults /\ cmig_defaults_ok inner
   | _ => True
   end.
+
+Definition defaults_ok (e : text * cmig) : Prop := cmig_defaults_ok (snd e).
 
 Lemma table_defaults_ok : Forall defaults_ok legacy_table.
 Proof.
   unfold legacy_table.
-  repeat (apply Forall_cons; [cbn [defaults_ok snd tl]; try exact I; repeat constructor; vm_compute; discriminate|]).
+  repeat (apply Forall_cons;
+          [unfold defaults_ok; cbn [cmig_defaults_ok snd tl]; try exact I;
+           repeat (first [split | constructor]); try exact I; vm_compute; discriminate|]).
   apply Forall_nil.
 Qed.
+
+(* the numbers of arguments with which a call has an intended tree *)
+Fixpoint cmig_regular (m : cmig) (n : nat) : Prop :=
+  match m with
+  | AsIs => True
+  | Rename _ => True
+  | Template f _ => n = tmpl_arity f
+  | Join _ _ => (1 <= n)%nat
+  | Params _ _ pms => (1 <= n <= length pms)%nat
+  | DateDif => True
+  | Optional required defaults inner =>
+      cmig_regular inner (if Nat.leb required n && Nat.ltb n (required + length defaults) then required + length defaults else n)
+  end.
 
 Definition call_regular (fname : text) (n : nat) : Prop :=
   match lookup fname legacy_table with
   | None => name_ok3 fname = true
-  | Some AsIs => True
-  | Some (Rename _) => True
-  | Some (Template f _) => n = tmpl_arity f
-  | Some (Join _ _) => (1 <= n)%nat
-  | Some (Params _ _ pms) => (1 <= n <= length pms)%nat
+  | Some m => cmig_regular m n
   end.
 
 Inductive regular : e1 -> Prop :=
@@ -1339,7 +1378,8 @@ Proof.
   - eexists; reflexivity.
   - destruct (atoi (print3 t)) as [z|]; [|eexists; reflexivity].
     destruct (decremented_keeps_negative && (z <? 0)%Z); eexists; reflexivity.
-  - unfold param_by_spaces. destruct (text_eqb (trim_space (lower (print3 t))) t_true); vm_compute; eexists; reflexivity.
+  - cbv zeta. destruct (text_eqb (trim_space (lower (print3 t))) t_true); [vm_compute; eexists; reflexivity|].
+    destruct (text_eqb (trim_space (lower (print3 t))) t_false); eexists; reflexivity.
 Qed.
 
 Lemma params_tree_total : forall pms old defaults,
@@ -1364,6 +1404,45 @@ Proof.
       * rewrite Er. eexists; reflexivity.
 Qed.
 
+Lemma all_some_canon_total ds : Forall (fun d => canon d <> None) ds -> exists ts, all_some (map canon ds) = Some ts /\ length ts = length ds.
+Proof.
+  induction 1 as [|d r Hd Hr IH]; [exists []; split; reflexivity|].
+  destruct IH as (ts & E & L). destruct (canon d) as [t|] eqn:Ec; [|contradiction].
+  exists (t :: ts). cbn [map all_some]. rewrite Ec, E. split; [reflexivity | cbn [length]; rewrite L; reflexivity].
+Qed.
+
+Lemma Forall_skipn {A} (P : A -> Prop) k l : Forall P l -> Forall P (skipn k l).
+Proof.
+  revert l. induction k as [|k IH]; intros l H; [exact H|]. destruct l as [|x r]; [constructor|].
+  inversion H; subst. cbn [skipn]. apply IH. assumption.
+Qed.
+
+Lemma cmig_tree_total : forall m fname ts,
+  cmig_closed fname m -> cmig_defaults_ok m -> cmig_regular m (length ts) -> exists t, cmig_tree m fname ts = Some t.
+Proof.
+  induction m as [|n|f precs|sep p|n defaults pms| |required defaults inner IH]; intros fname ts TC TD H;
+    cbn [cmig_closed cmig_defaults_ok cmig_regular cmig_tree] in *.
+  - eexists; reflexivity.
+  - eexists; reflexivity.
+  - destruct TC as [(_ & s & Hs & Hw & _) _]. unfold tmpl_tree. rewrite H, Nat.eqb_refl, Hs, Hw. eexists; reflexivity.
+  - destruct TC as (o & Ho & _). rewrite Ho. destruct ts as [|t0 r]; [cbn in H; lia|]. eexists; reflexivity.
+  - destruct H as [H1 H2]. apply Nat.leb_le in H2. rewrite H2.
+    destruct (params_tree_total pms ts defaults) as [ps Ep].
+    + intros E. subst ts. cbn in H1. lia.
+    + intros _. exact TD.
+    + rewrite Ep. eexists; reflexivity.
+  - eexists; reflexivity.
+  - destruct TD as [TDd TDi]. unfold with_default_trees.
+    destruct (Nat.leb required (length ts) && Nat.ltb (length ts) (required + length defaults)) eqn:Eb.
+    + destruct (all_some_canon_total (skipn (length ts - required) defaults) (Forall_skipn _ _ _ TDd)) as (ds & Ed & Ld).
+      rewrite Ed. cbn [option_map]. apply IH; try assumption.
+      rewrite app_length, Ld, skipn_length.
+      apply andb_true_iff in Eb. destruct Eb as [E1 E2]. apply Nat.leb_le in E1. apply Nat.ltb_lt in E2.
+      replace (length ts + (length defaults - (length ts - required)))%nat with (required + length defaults)%nat by lia.
+      exact H.
+    + apply IH; assumption.
+Qed.
+
 Lemma call_tree_total fname ts :
   call_regular fname (length ts) -> exists t, call_tree fname ts = Some t.
 Proof.
@@ -1373,16 +1452,7 @@ Proof.
     pose proof templates_closed as TC. rewrite Forall_forall in TC. specialize (TC _ Hin).
     pose proof table_defaults_ok as TD. rewrite Forall_forall in TD. specialize (TD _ Hin).
     unfold entry_closed in TC. unfold defaults_ok in TD. cbn [fst snd] in TC, TD.
-    destruct m as [|n|f precs|sep p|n defaults pms].
-    + eexists; reflexivity.
-    + eexists; reflexivity.
-    + destruct TC as (_ & s & Hs & Hw & _). unfold tmpl_tree. rewrite H, Nat.eqb_refl, Hs, Hw. eexists; reflexivity.
-    + destruct TC as (o & Ho & _). rewrite Ho. destruct ts as [|t0 r]; [cbn in H; lia|]. eexists; reflexivity.
-    + destruct H as [H1 H2]. apply Nat.leb_le in H2. rewrite H2.
-      destruct (params_tree_total pms ts defaults) as [ps Ep].
-      * intros E. subst ts. cbn in H1. lia.
-      * intros _. exact TD.
-      * rewrite Ep. eexists; reflexivity.
+    apply cmig_tree_total; assumption.
   - rewrite H. eexists; reflexivity.
 Qed.
 
